@@ -30,7 +30,8 @@ class RGen:
             if c < 0.62:
                 st.append(S('send', g=rng.randrange(1, k + 1), p=self.newpid()))
             elif c < 0.80:
-                st.append(S('busy', n=rng.choice([0, 1, 3, 10, 20, 49, 50, 51, 100, 500]), i=rng.choice([0, 1])))
+                # (wait times over the whole 16-bit range of the field: the hold-off is capped, never wrapped)
+                st.append(S('busy', n=rng.choice([0, 1, 3, 10, 20, 49, 50, 51, 100, 500, 1000, 32767, 32768, 65487, 65500, 65534, 65535]), i=rng.choice([0, 0, 1])))
                 if rng.random() < 0.3:   # back-to-back storm
                     st.append(S('busy', n=rng.choice([0, 5, 60]), i=1))
             elif c < 0.90:
@@ -40,6 +41,20 @@ class RGen:
         st.append(S('adv', d=120_000))
         st.append(S('drain'))
         return dict(run=run, cfg=cfg, steps=st, tag='pace')
+
+    def busy_in_resend(self, run):
+        """C13: a busy indication arrives while the messages a lost indication asked for are being retransmitted: the
+        retransmissions queue behind the back-off like every other transmission."""
+        rng = self.rng
+        pause = rng.choice([2000, 3000, 5000])
+        n = rng.choice([5, 6, 8])
+        cfg = dict(pause=pause, retain=8, mode='real', q=rng.choice([500, 1500]), slack=300, T=200_000)
+        st = []
+        for _ in range(n):
+            st.append(S('send', g=1, p=self.newpid()))
+        st += [S('adv', d=pause * (n + 1) + 2000), S('lost', n=n), S('adv', d=pause + pause // 2), S('busy', n=rng.choice([10, 20, 30]), i=1),
+               S('adv', d=pause * (n + 2) + 60_000), S('send', g=1, p=self.newpid()), S('adv', d=pause + 20_000), S('drain')]
+        return dict(run=run, cfg=cfg, steps=st, tag='pace-busy-in-resend')
 
     def history(self, run, n=50, group=False):
         """C14: sends (some failing) x lost indications x busy x readers x close."""
